@@ -118,6 +118,12 @@ static void scen_compress(const scen_t* s) {
         for (int attempt = 0; attempt < 4; attempt++) {
             if (attempt) ZSTD_CCtx_reset(c, ZSTD_reset_session_only);
             size_t e = apply_cparams(c, s, f, &cd, tp);
+            if (attempt && !ZSTD_isError(e)) {    /* any job, not only the failed one: a smaller input first */
+                size_t ir = do_compress(c, s, 700);
+                if (ZSTD_isError(ir)) { if (healed) { vx_fail("%s: after a refused allocation and a reset, a small job fails: %s", s->name, ZSTD_getErrorName(ir)); goto end; } }
+                else if (!roundtrip_ok(s, ir, 700)) { vx_fail("%s: after a refused allocation and a reset, a small job does not round trip", s->name); goto end; }
+                ZSTD_CCtx_reset(c, ZSTD_reset_session_only); e = apply_cparams(c, s, f, &cd, tp);
+            }
             r = ZSTD_isError(e) ? e : do_compress(c, s, n);
             if (!ZSTD_isError(r)) { if (attempt) vx_stat_add("retries_succeeded", 1); break; }
             if (!g_faulted) { vx_fail("%s: operation failed although no allocation was refused: %s", s->name, ZSTD_getErrorName(r)); goto end; }
@@ -164,6 +170,18 @@ static void scen_decompress(const scen_t* s) {
                 break; }
             case 4: e = ZSTD_DCtx_refPrefix(d, g_dict, 1500); break;
             default: break;
+            }
+            /* after a refused allocation and a reset the context must be good for ANY job, not only for the one that failed: first a smaller,
+             * different frame (one that needs none of what the failed call was growing), then the retry */
+            if (attempt && !ZSTD_isError(e) && !s->dictMode) {
+                size_t ir;
+                if (!s->streaming) ir = ZSTD_decompressDCtx(d, g_out, sizeof g_out, g_frameSmall, g_frameSmallLen);
+                else { ZSTD_inBuffer in = { g_frameSmall, g_frameSmallLen, 0 }; ZSTD_outBuffer out = { g_out, sizeof g_out, 0 }; ir = 1;
+                    for (int i = 0; i < 10000 && ir != 0 && !ZSTD_isError(ir); i++) { ZSTD_inBuffer part = { g_frameSmall, in.pos + 50 > g_frameSmallLen ? g_frameSmallLen : in.pos + 50, in.pos }; ir = ZSTD_decompressStream(d, &out, &part); in.pos = part.pos; }
+                    if (!ZSTD_isError(ir)) ir = out.pos; }
+                if (ZSTD_isError(ir)) { if (healed) { vx_fail("%s: after a refused allocation and a reset, a small frame no longer decodes: %s", s->name, ZSTD_getErrorName(ir)); goto end; } }
+                else if (ir != 3000 || memcmp(g_out, g_src, 3000)) { vx_fail("%s: after a refused allocation and a reset, a small frame decodes to wrong content", s->name); goto end; }
+                ZSTD_DCtx_reset(d, ZSTD_reset_session_only);
             }
             if (ZSTD_isError(e)) r = e;
             else if (!s->streaming) r = ZSTD_decompressDCtx(d, g_out, sizeof g_out, fr, flen);
